@@ -677,7 +677,7 @@ size_t rtosc_message_length(const char *msg, size_t len)
 bool rtosc_valid_message_p(const char *msg, size_t len)
 {
     //Validate Path Characters (assumes printable characters are sufficient)
-    if(*msg != '/')
+    if(len == 0 || *msg != '/')
         return false;
     const char *tmp = msg;
     for(unsigned i=0; i<len; ++i) {
